@@ -224,6 +224,41 @@ def rangeRes : Out → Out → GenRes
   | .val _, err => .err err
   | err, _ => .err err
 
+/-- calling the global function `f` with the evaluated arguments (a variable of that name is
+not callable; `len` is the built-in unless a function of that name is defined) -/
+def callNamed (ρ : Env) (f : Text) (args : Args) : Out :=
+  match lookup f ρ.vars with
+  | some _ =>
+    match args with
+    | .ok _ => .typeError
+    | .err o => o
+  | none =>
+    match ρ.funs f with
+    | some fn =>
+      match args with
+      | .ok vs => fn vs
+      | .err o => o
+    | none =>
+      if f = [108, 101, 110] then
+        match args with
+        | .ok [v] => lenVal v
+        | .ok _ => .typeError
+        | .err o => o
+      else .otherError
+
+/-- `any` / `all` over what the generator iterates -/
+def quantOver (fo : FloatOps) (isAny : Bool) (gr : GenRes) (pass f : Val → Out) : Out :=
+  match gr with
+  | .items _ items => quantLoopF fo isAny pass f items
+  | .range _ s n => rangeLoopF fo isAny pass f s n
+  | .err o => o
+
+/-- two arguments evaluated left to right -/
+def args2 : Out → Out → Args
+  | .val a, .val b => .ok [a, b]
+  | .val _, o => .err o
+  | o, _ => .err o
+
 mutual
   /-- what CPython computes for the expression -/
   def evalPy (ρ : Env) : PyAst → Out
@@ -231,44 +266,23 @@ mutual
       match evalPy ρ l with
       | .val lv => evalChain ρ lv ops comps
       | err => err
-    | .call (.name f) args kw =>
+    | .call (.name f) [.generatorExp elt [.mk (.name x) (.call (.name r) [a, b] 0) ifs _]] 0 =>
       if f = anyName ∨ f = allName then
-        match args, kw with
-        | [.generatorExp elt [.mk (.name x) iter ifs false]], 0 =>
-          let generic := evalPy ρ iter
-          let gr : GenRes := match iter with
-            | .call (.name r) [a, b] 0 =>
-              if r = rangeName then rangeRes (evalPy ρ a) (evalPy ρ b) else iterRes generic
-            | _ => iterRes generic
-          match gr with
-          | .items _ items =>
-            quantLoopF ρ.fops (f = anyName) (fun item => evalIfs (ρ.bind x item) ifs)
-              (fun item => evalPy (ρ.bind x item) elt) items
-          | .range _ s n =>
-            rangeLoopF ρ.fops (f = anyName) (fun i => evalIfs (ρ.bind x i) ifs)
-              (fun i => evalPy (ρ.bind x i) elt) s n
-          | .err o => o
-        | _, _ => .otherError  -- other argument shapes are not modelled
+        quantOver ρ.fops (f = anyName)
+          (if r = rangeName then rangeRes (evalPy ρ a) (evalPy ρ b)
+           else if r = anyName ∨ r = allName then .err .otherError
+           else iterRes (callNamed ρ r (args2 (evalPy ρ a) (evalPy ρ b))))
+          (fun item => evalIfs (ρ.bind x item) ifs) (fun item => evalPy (ρ.bind x item) elt)
+      else callNamed ρ f (.err .otherError)  -- a generator expression is not a value of this model
+    | .call (.name f) [.generatorExp elt [.mk (.name x) iter ifs _]] 0 =>
+      if f = anyName ∨ f = allName then
+        quantOver ρ.fops (f = anyName) (iterRes (evalPy ρ iter))
+          (fun item => evalIfs (ρ.bind x item) ifs) (fun item => evalPy (ρ.bind x item) elt)
+      else callNamed ρ f (.err .otherError)
+    | .call (.name f) args kw =>
+      if f = anyName ∨ f = allName then .otherError  -- other argument shapes are not modelled
       else if kw > 0 then .otherError  -- keyword arguments are not modelled
-      else
-        match lookup f ρ.vars with
-        | some _ =>
-          match evalPyArgs ρ args with
-          | .ok _ => .typeError
-          | .err o => o
-        | none =>
-          match ρ.funs f with
-          | some fn =>
-            match evalPyArgs ρ args with
-            | .ok vs => fn vs
-            | .err o => o
-          | none =>
-            if f = [108, 101, 110] then
-              match evalPyArgs ρ args with
-              | .ok [v] => lenVal v
-              | .ok _ => .typeError
-              | .err o => o
-            else .otherError
+      else callNamed ρ f (evalPyArgs ρ args)
     | .call (.attribute recv m) args kw =>
       if kw > 0 then .otherError
       else
